@@ -12,6 +12,7 @@ CH = "des/src/net/channel.rs"
 BLD = "des/src/runtime/builder.rs"
 MT = "des/src/net/runtime/mod.rs"
 TP = "des/src/net/topology.rs"
+EV = "des/src/net/runtime/events.rs"
 
 # (id, property, file, regex, replacement, expectation)   expectation: "kill" (exit 1 expected) | "keep" (exit 0 expected)
 PACK = [
@@ -51,6 +52,11 @@ PACK = [
     ("tp-bidir-early-true", "C19", TP, r"(\.any\(\|edge\| edge\.dst == src\) \{\n\s*return false;\n\s*\}\n\s*\}\n)", r"\1            return true;\n", "kill"),
     ("eq-tp-len-lt", "C19", TP, r"if visited\.len\(\) != self\.nodes\.len\(\) \{", "if visited.len() < self.nodes.len() {", "keep"),  # a duplicate-free list of node indices never exceeds the node count
     ("eq-tp-bundle-index", "C19", TP, r"for edge in bundle \{", "for edge in &self.edges[src] {", "keep"),
+    ("gw-active-next", "C08", EV, r"            if !cur\.endpoint\.owner\(\)\.is_active\(\) \{", "            if !next.endpoint.owner().is_active() {", "kill"),
+    ("gw-chan-cur", "C08", EV, r"if let Some\(ch\) = next\.channel\(\) \{", "if let Some(ch) = cur.channel() {", "kill"),
+    ("gw-no-lastgate", "C08", EV, r"            msg\.header\.last_gate = Some\(next\.endpoint\.clone\(\)\);\n", "", "kill"),
+    ("gw-deliver-next-to-last", "C08", EV, r"(            // No channel means next hop is on the same time slot,\n            // so continue\.\n)            cur = next;", r"\1            if next.next_hop().is_none() { break; }\n            cur = next;", "kill"),
+    ("eq-gw-clone", "C08", EV, r"(            // so continue\.\n)            cur = next;", r"\1            cur = next.clone();", "keep"),
     # equivalent edits: must stay green
     ("eq-swap-t0-t1", "C01", CQ, r"                self\.t0 \+= self\.t;\n                self\.t1 \+= self\.t;\n            \}", "                self.t1 += self.t;\n                self.t0 += self.t;\n            }", "keep"),
     ("eq-extra-stmt", "C01", CQ, r"\n        self\.len \+= 1;", "\n        self.len += 1;\n        let _dbg = self.len;", "keep"),
